@@ -66,7 +66,10 @@ def snapshot(v):
 
 def call_by_name(ip, fn, env):
     """Call a contract function (requires/ensures/pin) with the arguments it names."""
-    names = list(inspect.signature(fn).parameters)
+    ps = inspect.signature(fn).parameters
+    if any(p.kind == p.VAR_KEYWORD for p in ps.values()):
+        return ip.call(fn, [], dict(env))
+    names = list(ps)
     missing = [n for n in names if n not in env]
     if missing:
         raise Unsupported('contract function %s asks for unknown names %s' % (fn.__qualname__, missing))
@@ -74,8 +77,10 @@ def call_by_name(ip, fn, env):
 
 
 def native_by_name(fn, env):
-    names = list(inspect.signature(fn).parameters)
-    return fn(*[env[n] for n in names])
+    ps = inspect.signature(fn).parameters
+    if any(p.kind == p.VAR_KEYWORD for p in ps.values()):
+        return fn(**env)
+    return fn(*[env[n] for n in ps])
 
 
 def concretize_value(model, v, ctx=None):
@@ -639,6 +644,23 @@ def from_jsonable(v):
 # ---------------------------------------------------------------------------------------------------
 # native replay of a counterexample on the real function
 
+def _star_call(f, kwargs):
+    """(args, kwargs) for calling f when the contract names a *args parameter"""
+    sig = inspect.signature(f)
+    varpos = [p.name for p in sig.parameters.values() if p.kind == p.VAR_POSITIONAL]
+    if not varpos or varpos[0] not in kwargs:
+        return [], kwargs
+    kwargs = dict(kwargs)
+    star = list(kwargs.pop(varpos[0]))
+    pos = []
+    for p in sig.parameters.values():
+        if p.kind in (p.POSITIONAL_ONLY, p.POSITIONAL_OR_KEYWORD) and p.name in kwargs:
+            pos.append(kwargs.pop(p.name))
+        elif p.kind == p.VAR_POSITIONAL:
+            break
+    return pos + star, kwargs
+
+
 def replay_native(c, conc, warmup=None, rng=None):
     """Run the real function on concrete inputs and evaluate the contract natively.
     Returns dict(confirmed=bool, observed=..., expected=...).
@@ -666,7 +688,8 @@ def replay_native(c, conc, warmup=None, rng=None):
                 kw.update(native_by_name(c.call, w))
             kw.update(c.kwargs)
             try:
-                f(**kw)
+                wa, wk = _star_call(f, kw)
+                f(*wa, **wk)
             except Exception:
                 pass
             if c.perturb is not None and rng is not None:
@@ -709,6 +732,7 @@ def replay_native(c, conc, warmup=None, rng=None):
             kwargs.update(native_by_name(c.call, env))
         kwargs.update(c.kwargs)
         fn, args = f, []
+        args, kwargs = _star_call(f, kwargs)
     exc = None
     result = None
     try:
